@@ -588,14 +588,14 @@ func (ctx *RenderContext) callRangeFunction(args []interface{}) (interface{}, er
 	// Create the range
 	result := make([]interface{}, 0)
 
-	if step > 0 {
-		for i := start; i <= end; i += step {
-			result = append(result, int(i))
-		}
-	} else {
-		for i := start; i >= end; i += step {
-			result = append(result, int(i))
-		}
+	// (count first: adding the step to a float counter stops changing it beyond
+	// 2^53, and the loop would never end)
+	count := 0.0
+	if (step > 0 && start <= end) || (step < 0 && start >= end) {
+		count = math.Floor((end-start)/step) + 1
+	}
+	for k := 0.0; k < count; k++ {
+		result = append(result, int(start+k*step))
 	}
 
 	// Always return a non-nil slice for the for loop
